@@ -25,12 +25,12 @@ Definition in_domain (ps : list bpost) : bool :=
 (* result bits: 1 = model and implementation agree; 2 = implementation satisfies the
    specification; 4 = the case is inside the exact domain (no posting outside 96 bit / 28) *)
 Definition c02_case (ps : list bpost) (names : list acct) (impl : option bal_report) : N :=
-  let model := balance_report (fun _ => true) (fun l => l) (sel_names names) ps in
+  let model := balance_report_det (fun _ => true) (sel_names names) ps in
   let agree :=
     match model, impl with
     | None, None => true
     | Some m, Some i =>
-        list_eqb (brow_repr_eqb true) (b_rows m) (b_rows i)
+        list_eqb (brow_repr_eqb false) (b_rows m) (b_rows i)
         && list_eqb delta_eqb (by_comm (b_deltas m)) (by_comm (b_deltas i))
     | _, _ => false
     end in
@@ -48,4 +48,4 @@ Definition c02_case (ps : list bpost) (names : list acct) (impl : option bal_rep
    + (if in_domain ps then 4 else 0))%N.
 
 Definition c02_model (ps : list bpost) (names : list acct) : option bal_report :=
-  balance_report (fun _ => true) (fun l => l) (sel_names names) ps.
+  balance_report_det (fun _ => true) (sel_names names) ps.
